@@ -372,25 +372,28 @@ func (c *CharSet) prepareASCIIBitmap() {
 func (c *CharSet) charInCategories(ch rune) bool {
 	for _, ct := range c.categories {
 		// special categories...then unicode
+		// The categories form a union: a negated category that contains the
+		// char doesn't match, but a later category still may.
 		if ct.Cat == SpaceCategoryText {
 			if unicode.IsSpace(ch) {
-				// we found a space so we're done
-				// negate means this is a "bad" thing
-				return !ct.Negate
+				if !ct.Negate {
+					return true
+				}
 			} else if ct.Negate {
 				return true
 			}
 		} else if ct.Cat == WordCategoryText {
 			if IsWordChar(ch) {
-				return !ct.Negate
+				if !ct.Negate {
+					return true
+				}
 			} else if ct.Negate {
 				return true
 			}
 		} else if unicode.Is(unicodeCategories[ct.Cat], ch) {
-			// if we're in this unicode category then we're done
-			// if negate=true on this category then we "failed" our test
-			// otherwise we're good that we found it
-			return !ct.Negate
+			if !ct.Negate {
+				return true
+			}
 		} else if ct.Negate {
 			return true
 		}
